@@ -118,6 +118,16 @@ func ap(v Val) string {
 			sp = "..."
 		}
 		return "append(" + ap(x.S) + "; " + strings.Join(es, ", ") + sp + ")"
+	case *ArrayLitV:
+		es := make([]string, len(x.Elems))
+		for i, e := range x.Elems {
+			es[i] = ap(e)
+		}
+		return "[" + strings.Join(es, ", ") + "]"
+	case *MapV:
+		return "[" + ap(x.Elem) + " for " + ap(x.Coll) + "]"
+	case *MapElemV:
+		return ap(x.M.Elem)
 	case *TupleV:
 		es := make([]string, len(x.Vals))
 		for i, e := range x.Vals {
